@@ -56,6 +56,11 @@ def splines(tier):
     # points listed in descending order in the document (the definition sorts them)
     out.append(Spline(((8.0, 10.0), (3.0, 0.5), (0.0, -2.0)), 1, True))
     out.append(Spline(((31.0, 0.0), (-4.0, 10.0)), 0, False))
+    # steps: two points with the same raw value (left limit, then right limit), downward and upward (saw-tooth)
+    for order in (0, 1):
+        for ex in (False, True):
+            out.append(Spline(((0.0, 0.0), (8.0, 10.0), (8.0, -2.0), (31.0, 0.5)), order, ex))
+            out.append(Spline(((-4.0, 10.0), (3.0, 0.5), (3.0, 10.0), (8.0, 0.0), (8.0, 0.5), (31.0, -2.0)), order, ex))
     return out
 
 
@@ -118,6 +123,13 @@ def variants(tier):
         out.append((f"bool-u3:{tag}", lambda n, f, e=encs[0]: PType(n, "Boolean", e), 3, list(range(8)), (0,)))
         out.append((f"bool-s4:{tag}", lambda n, f, e=encs[1]: PType(n, "Boolean", e), 4, list(range(16)), (0,)))
         out.append((f"bool-f16:{tag}", lambda n, f, e=encs[2]: PType(n, "Boolean", e), 16, F16_PATTERNS, (0,)))
+    # wide integer enumerations: listed values beyond 2**53 (not representable as doubles), their neighbours unlisted
+    W = [0, 1, 2 ** 53, 2 ** 53 + 1, 2 ** 53 + 2, 0xDEADBEEFCAFEBABE, 0xDEADBEEFCAFEBABE - 1, 0xDEADBEEFCAFEB800, 2 ** 64 - 1, 2 ** 64 - 2, 2 ** 63, 2 ** 63 - 1]
+    out.append(("enum-u64:wide", lambda n, f: PType(n, "Enumerated", IntEnc(64), enum=((0, "ZERO"), (2 ** 53 + 1, "ODD"), (0xDEADBEEFCAFEBABE, "BEEF"), (2 ** 64 - 1, "ALL_ONES"),
+                                                                                           (2 ** 63 - 1, "HALF"))), 64, W, (0,)))
+    out.append(("enum-s64:wide", lambda n, f: PType(n, "Enumerated", IntEnc(64, "twosComplement"), enum=((-1, "MINUS_ONE"), (-(2 ** 53) - 1, "NEG_ODD"), (2 ** 62 + 1, "BIG"),
+                                                                                                            (-(2 ** 63), "MIN"))), 64,
+                W + [2 ** 64 - 2 ** 53 - 1, 2 ** 64 - 2 ** 53, 2 ** 62 + 1, 2 ** 62], (0,)))
     out.append(("enum-str8", lambda n, f: PType(n, "Enumerated", StrEnc(Fixed(8), "US-ASCII"), enum=(("a", "LOWER_A"), ("B", "UPPER_B"))), 8,
                 [ord("a"), ord("B"), ord("b"), 0, 0x7F], (0,)))
     out.append(("enum-str16-latin1", lambda n, f: PType(n, "Enumerated", StrEnc(Fixed(16), "ISO-8859-1"), enum=(("ab", "AB"), ("éé", "EE"))), 16,
@@ -185,7 +197,10 @@ def _task(task):
                 if label.startswith(("spline", "ctx")):
                     m = len(pats)
                     order += [pats[(i * 13 + 5) % m] for i in range(m)] if m > 2 and m % 13 else list(reversed(pats))
-                for sel in sels:
+                # context lists are walked twice, the second time backwards: which context applies to a packet must not depend on how often
+                # each context applied before
+                sel_seq = tuple(sels) + tuple(reversed(sels))[1:] if label.startswith("ctx") else tuple(sels)
+                for sel in sel_seq:
                     for v in order:
                         bits = format(sel, "02b") + format(v, f"0{w}b") + "10100101" + "0" * tail
                         pkt = docs.packet_for(j, bits)
